@@ -23,10 +23,14 @@ import GrassProofs.Lemmas.ModuleLoader
       (6) built-in modules offer the same functions as their global aliases,
       (7) every `@use`/`@forward` cycle is reported as an error.
 
-  Proved here: (1) (2) (3) (4) in full for the model; (5) for `@use … with` of a module without
-  `@forward` (`C12_with_unknown_is_error_partial`, `C12_with_after_load_is_error`,
-  `C12_with_never_overrides_plain`) — the statement for configurations threaded through
-  `@forward … with` is not proved, and the code violates it (`C12_asFound_forward_with_unchecked`);
+  Proved here: (1) (2) (3) (4) in full for the model (the code as it stands is the specified
+  variant, `C12_now_is_spec`); (5) for `@use … with` of a module and everything it reaches through
+  `@forward`s that have no `with` clause of their own, with any prefix / show / hide
+  (`C12_with_unknown_is_error_through_forwards_partial`, `C12_with_unknown_is_error_partial`,
+  `C12_with_after_load_is_error`, `C12_with_never_overrides_plain`) — what is missing is exactly the
+  case of a `@forward … with (…)` on the way (the configuration is then split into a new one); that
+  case is covered by the correspondence only, and the tree before the fix of F2 violated it
+  (`C12_asFound_forward_with_unchecked`);
   (6) as alias sameness of the generated table; (7) as the active-set invariant: a load that
   resolves to a module under evaluation is an error (`C12_cycle_is_error`), the active set is
   exactly restored by every successful load (`C12_active_restored`), and the cache of every run
@@ -540,6 +544,259 @@ theorem C12_with_unknown_is_error_partial (sw : Switches) (proj : Project) (fuel
     | error e => exact ⟨e, rfl⟩
     | ok env' => simp only [hc1, if_true]; exact ⟨_, rfl⟩
 
+/-! ### … and through any chain of `@forward`s without their own `with` -/
+
+/-- the name under which a configured variable reaches the module behind `@forward … as p*` -/
+def fwdName (r : FwdRule) (n : Ident) : Option Ident :=
+  match r.pfx with
+  | some p => if p.isPrefixOf n then some (n.drop p.length) else none
+  | none => some n
+
+/-- a statement cannot consume the configured variable, which this module sees as `vis` (`none`: it
+    cannot see it at all); `rec` answers the same question for a forwarded module -/
+def stmtKeeps (rec : Url → Option Ident → Bool) (vis : Option Ident) : Stmt → Bool
+  | .var m _ true => vis != some m
+  | .forward u r [] => rec u (vis.bind (fwdName r))
+  | .forward _ _ (_ :: _) => false
+  | _ => true
+
+/-- Nothing reachable from module `u` through `@forward`s (to depth `d`) declares the configured
+    variable with `!default`, and none of those `@forward`s has a `with` clause of its own. -/
+def cannotConsume (proj : Project) : Nat → Url → Option Ident → Bool
+  | 0, _, _ => false
+  | d + 1, u, vis =>
+    match resolve proj u with
+    | none => true
+    | some src => src.body.all (stmtKeeps (cannotConsume proj d) vis)
+
+/-- a loader that leaves the configured value under base key `b` alone whenever `rec` says so -/
+def KeepsB (loadF : LoadF) (rec : Url → Option Ident → Bool) : Prop :=
+  ∀ (url : Url) (cfg : Cfg) (st : St) (b : Ident) (vis : Option Ident) (id : Nat) (cfg' : Cfg),
+    (∀ n, viaLayers cfg.layers n = some b → some n = vis) → rec url vis = true →
+    (loadF url cfg st).res = .ok (id, cfg') →
+    cfg'.layers = cfg.layers ∧ cfg'.explicit = cfg.explicit ∧ cfg'.base.lookup b = cfg.base.lookup b
+
+theorem remove_keeps (cfg : Cfg) (m b : Ident) (h : viaLayers cfg.layers m ≠ some b) :
+    (cfg.remove m).2.layers = cfg.layers ∧ (cfg.remove m).2.explicit = cfg.explicit ∧
+    (cfg.remove m).2.base.lookup b = cfg.base.lookup b := by
+  unfold Cfg.remove
+  split
+  · exact ⟨rfl, rfl, rfl⟩
+  · rename_i b' hb'
+    refine ⟨rfl, rfl, ?_⟩
+    exact lookup_eraseKey_ne _ _ _ (fun he => h (by rw [hb', he]))
+
+theorem throughForward_vis (sw : Switches) (cfg : Cfg) (r : FwdRule) (b : Ident) (vis : Option Ident)
+    (hv : ∀ n, viaLayers cfg.layers n = some b → some n = vis) :
+    (throughForward sw cfg r).2 = false ∨
+    ((throughForward sw cfg r).1.base = cfg.base ∧
+      ∀ n', viaLayers (throughForward sw cfg r).1.layers n' = some b → some n' = vis.bind (fwdName r)) := by
+  unfold throughForward
+  split
+  · exact Or.inl rfl
+  · refine Or.inr ⟨rfl, ?_⟩
+    intro n' h
+    cases hp : r.pfx with
+    | none =>
+      have fin : viaLayers cfg.layers n' = some b → some n' = vis.bind (fwdName r) := by
+        intro hvl
+        rw [← hv n' hvl]
+        simp [fwdName, hp]
+      cases hvis : r.vis with
+      | all => simp only [hp, hvis] at h; exact fin h
+      | allow vs fs =>
+        simp only [hp, hvis, viaLayers] at h
+        split at h
+        · exact fin h
+        · cases h
+      | hide vs fs =>
+        simp only [hp, hvis, viaLayers] at h
+        split at h
+        · exact fin h
+        · cases h
+    | some p =>
+      have fin : viaLayers cfg.layers (p ++ n') = some b → some n' = vis.bind (fwdName r) := by
+        intro hvl
+        rw [← hv (p ++ n') hvl]
+        have hpre : p.isPrefixOf (p ++ n') = true := by simp [List.isPrefixOf_iff_prefix]
+        simp [fwdName, hp, hpre]
+      cases hvis : r.vis with
+      | all => simp only [hp, hvis, viaLayers] at h; exact fin h
+      | allow vs fs =>
+        simp only [hp, hvis, viaLayers] at h
+        split at h
+        · exact fin h
+        · cases h
+      | hide vs fs =>
+        simp only [hp, hvis, viaLayers] at h
+        split at h
+        · exact fin h
+        · cases h
+
+theorem step_keepsB (sw : Switches) (loadF : LoadF) (rec : Url → Option Ident → Bool) (hL : KeepsB loadF rec)
+    (s : Stmt) (env : Env) (cfg : Cfg) (st : St) (b : Ident) (vis : Option Ident)
+    (hv : ∀ n, viaLayers cfg.layers n = some b → some n = vis) (hs : stmtKeeps rec vis s = true)
+    (env' : Env) (cfg' : Cfg) (h : (step sw loadF s env cfg st).res = .ok (env', cfg')) :
+    cfg'.layers = cfg.layers ∧ cfg'.explicit = cfg.explicit ∧ cfg'.base.lookup b = cfg.base.lookup b := by
+  cases s with
+  | var m v g =>
+    cases g with
+    | false => simp [step] at h; rw [← h.2]; exact ⟨rfl, rfl, rfl⟩
+    | true =>
+      have hne : viaLayers cfg.layers m ≠ some b := by
+        intro he
+        have := hv m he
+        simp [stmtKeeps, ← this] at hs
+      have hk := remove_keeps cfg m b hne
+      simp only [step, if_true] at h
+      generalize cfg.remove m = rm at h hk
+      obtain ⟨ov, c2⟩ := rm
+      simp only at hk
+      cases ov with
+      | some cv => simp only at h; cases h; exact hk
+      | none =>
+        simp only at h
+        split at h <;> (cases h; exact hk)
+  | fn m b' => simp [step] at h; rw [← h.2]; exact ⟨rfl, rfl, rfl⟩
+  | mixin m => simp [step] at h; rw [← h.2]; exact ⟨rfl, rfl, rfl⟩
+  | css => simp [step] at h; rw [← h.2]; exact ⟨rfl, rfl, rfl⟩
+  | dbg => simp [step] at h; rw [← h.2]; exact ⟨rfl, rfl, rfl⟩
+  | use url ns withs =>
+    simp only [step] at h
+    repeat' split at h
+    all_goals (first | cases h | skip)
+    all_goals exact ⟨rfl, rfl, rfl⟩
+  | forward url rule withs =>
+    cases withs with
+    | cons w ws => simp [stmtKeeps] at hs
+    | nil =>
+      simp only [stmtKeeps] at hs
+      have htf := throughForward_vis sw cfg rule b vis hv
+      simp only [step] at h
+      cases htfe : throughForward sw cfg rule with
+      | mk adj shared =>
+        rw [htfe] at htf h
+        simp only [List.isEmpty_nil, if_true] at h
+        cases hr : (loadF url adj st).res with
+        | error e => simp only [hr] at h; cases h
+        | ok r =>
+          obtain ⟨id, adj'⟩ := r
+          simp only [hr] at h
+          cases h
+          rcases htf with hsf | ⟨hbase, hvis'⟩
+          · simp only at hsf
+            simp [hsf]
+          · cases shared with
+            | false => exact ⟨rfl, rfl, rfl⟩
+            | true =>
+              have := hL url adj st b _ id adj' hvis' hs hr
+              simp only at hbase
+              simp only [if_true, true_and]
+              rw [this.2.2, hbase]
+  | assign ns m v g =>
+    simp only [step] at h
+    repeat' split at h
+    all_goals (first | cases h | skip)
+    all_goals exact ⟨rfl, rfl, rfl⟩
+  | probe pid g k ns m =>
+    simp only [step] at h
+    repeat' split at h
+    all_goals (first | cases h | skip)
+    all_goals exact ⟨rfl, rfl, rfl⟩
+  | pkeys pid k ns =>
+    simp only [step] at h
+    repeat' split at h
+    all_goals (first | cases h | skip)
+    all_goals exact ⟨rfl, rfl, rfl⟩
+
+theorem evalStmts_keepsB (sw : Switches) (loadF : LoadF) (rec : Url → Option Ident → Bool) (hL : KeepsB loadF rec)
+    (b : Ident) (vis : Option Ident) :
+    ∀ (ss : List Stmt), (∀ s ∈ ss, stmtKeeps rec vis s = true) → ∀ (env : Env) (cfg : Cfg) (st : St),
+      (∀ n, viaLayers cfg.layers n = some b → some n = vis) → ∀ (env' : Env) (cfg' : Cfg),
+      (evalStmts sw loadF ss env cfg st).res = .ok (env', cfg') →
+      cfg'.layers = cfg.layers ∧ cfg'.explicit = cfg.explicit ∧ cfg'.base.lookup b = cfg.base.lookup b := by
+  intro ss
+  induction ss with
+  | nil => intro _ env cfg st _ env' cfg' h; unfold evalStmts at h; cases h; exact ⟨rfl, rfl, rfl⟩
+  | cons s rest ih =>
+    intro hk env cfg st hv env' cfg' h
+    simp only [evalStmts] at h
+    cases hs : (step sw loadF s env cfg st).res with
+    | error e => simp only [hs] at h; cases h
+    | ok r1 =>
+      obtain ⟨env1, cfg1⟩ := r1
+      simp only [hs] at h
+      have h1 := step_keepsB sw loadF rec hL s env cfg st b vis hv (hk s (by simp)) env1 cfg1 hs
+      have := ih (fun s hs => hk s (by simp [hs])) env1 cfg1 _ (by rw [h1.1]; exact hv) env' cfg' h
+      exact ⟨this.1.trans h1.1, this.2.1.trans h1.2.1, this.2.2.trans h1.2.2⟩
+
+theorem load_keepsB (sw : Switches) (proj : Project) :
+    ∀ (fuel d : Nat), KeepsB (load sw proj fuel) (cannotConsume proj d) := by
+  intro fuel
+  induction fuel with
+  | zero => intro d url cfg st b vis id cfg' _ _ h; simp [load] at h
+  | succ fuel ih =>
+    intro d url cfg st b vis id cfg' hv hc h
+    cases d with
+    | zero => simp [cannotConsume] at hc
+    | succ d =>
+      revert h
+      simp only [load]
+      cases hres : resolve proj url with
+      | none => intro h; cases h
+      | some src =>
+        simp only [cannotConsume, hres, List.all_eq_true] at hc
+        simp only
+        split
+        · intro h; cases h
+        · split
+          · intro h; cases h
+          · split
+            · intro h; cases h; exact ⟨rfl, rfl, rfl⟩
+            · generalize ho : evalStmts sw (load sw proj fuel) src.body (Env.new src.name) cfg _ = o
+              cases hr : o.res with
+              | error e => intro h; cases h
+              | ok r1 =>
+                obtain ⟨env1, cfg1⟩ := r1
+                intro h
+                cases h
+                exact evalStmts_keepsB sw (load sw proj fuel) (cannotConsume proj d) (ih d) b vis src.body hc
+                  (Env.new src.name) cfg _ hv env1 cfg' (by rw [ho]; exact hr)
+
+/-- **`with` of a variable that nothing can take is an error — through `@forward` chains.** If the
+    `with` clause of a `@use` names `n`, and neither the module nor any module reachable from it
+    through `@forward`s (with any prefix / show / hide, translating the name on the way) declares
+    that variable with `!default`, the `@use` fails, for every switch setting.  PARTIAL with
+    respect to (5) in one respect only: the `@forward` rules on the way must not have a `with`
+    clause of their own (`cannotConsume` answers `false` for them); for those the statement is
+    checked by the correspondence, not proved. -/
+theorem C12_with_unknown_is_error_through_forwards_partial (sw : Switches) (proj : Project) (fuel d : Nat) (url : Url)
+    (ns : UseNs) (withs : List (Ident × Val)) (n : Ident) (env : Env) (cfg : Cfg) (st : St)
+    (hn : (withs.lookup n).isSome = true) (hc : cannotConsume proj d url (some n) = true) :
+    ∃ e, (step sw (load sw proj fuel) (.use url ns withs) env cfg st).res = .error e := by
+  have hne : withs.isEmpty = false := by cases withs <;> simp_all
+  simp only [step, hne, Bool.false_eq_true, if_false]
+  cases hl : (load sw proj fuel url ⟨withs, [], true⟩ st).res with
+  | error e => exact ⟨e, rfl⟩
+  | ok r =>
+    obtain ⟨id, c1⟩ := r
+    simp only
+    have hk := load_keepsB sw proj fuel d url ⟨withs, [], true⟩ st n (some n) id c1
+      (by intro m hm; simp only [viaLayers] at hm; exact hm.symm ▸ rfl) hc hl
+    have hc1 : c1.leftover = true := by
+      obtain ⟨b, l, e⟩ := c1
+      simp only at hk
+      obtain ⟨hl', he', hb'⟩ := hk
+      subst hl' he'
+      have hbne : b.isEmpty = false := by
+        cases b with
+        | nil => rw [← hb'] at hn; simp at hn
+        | cons _ _ => rfl
+      simp [Cfg.leftover, Cfg.isEmpty, layersEmpty, hbne]
+    cases addModule sw env ns url.base id (load sw proj fuel url ⟨withs, [], true⟩ st).st.mods with
+    | error e => exact ⟨e, rfl⟩
+    | ok env' => simp only [hc1, if_true]; exact ⟨_, rfl⟩
+
 /-- **`with` after load is an error.** A `@use … with (…)` of a module that is already in the
     cache cannot configure it; the clause is left over and the rule fails (grass reports it with
     the text of the not-`!default` error; the specific "already loaded" message of dart-sass is
@@ -668,5 +925,16 @@ example : resErr (run .now [srcA, ⟨['e'], false, [.use ⟨['a'], false⟩ .dfl
 example : resErr (run .now [srcA, ⟨['e'], false, [.use ⟨['a'], false⟩ .dflt [], .use ⟨['a'], false⟩ (.named ['n']) [(['x'], 8)]]⟩] ['e']).res
     = some .withNotDefault := by decide
 example : ∀ s ∈ srcA.body, keepsCfg ['y'] s = true := by decide
+
+-- C12_with_unknown_is_error_through_forwards_partial: `$p-y` reaches `a` as `$y` through `@forward "a" as p-*` (and through
+-- a second forwarder); `a` declares `$y` without `!default`, so nothing can take it — and the compilation fails
+private def srcMidP : ModSrc := ⟨['m'], false, [.forward ⟨['a'], false⟩ ⟨some ['p', '-'], .all⟩ []]⟩
+private def srcTop : ModSrc := ⟨['t'], false, [.forward ⟨['m'], false⟩ ⟨none, .hide [['p', '-', 'x']] []⟩ []]⟩
+example : cannotConsume [srcA, srcMidP, srcTop] 3 ⟨['t'], false⟩ (some ['p', '-', 'y']) = true ∧
+    cannotConsume [srcA, srcMidP, srcTop] 3 ⟨['t'], false⟩ (some ['p', '-', 'z']) = false ∧
+    resErr (run .now [srcA, srcMidP, srcTop, ⟨['e'], false, [.use ⟨['t'], false⟩ .dflt [(['p', '-', 'y'], 8)]]⟩] ['e']).res
+      = some .withNotDefault ∧
+    resErr (run .now [srcA, srcMidP, srcTop, ⟨['e'], false, [.use ⟨['t'], false⟩ .dflt [(['p', '-', 'z'], 8)]]⟩] ['e']).res
+      = none := by decide
 
 end Grass.Module
